@@ -232,7 +232,7 @@ fn load_keys<P: AsRef<Path>>(path: P) -> Result<PrivateKey, Error> {
     let mut reader = BufReader::new(file);
     let item = read_one(&mut reader)
         .map_err(|_| err_msg("fail to load private key"))?
-        .expect("pem file");
+        .ok_or_else(|| err_msg("no private key found in pem file"))?;
     match item {
         Item::RSAKey(key) => Ok(PrivateKey(key)),
         Item::PKCS8Key(key) => Ok(PrivateKey(key)),
